@@ -138,7 +138,7 @@ PROPS = {
         design='DESIGN.md §5 C19'),
     'C20': dict(
         title='hashing work bounded', level='model_checking', templates=['l2'],
-        k_quick=['q_hash_count_lookups', 'q_hash_count_zero', 'q_hash_count_remove_ends', 'q_hash_count_rebuild', 'q_hash_count_retain'],
+        k_quick=['q_hash_count_lookups', 'q_hash_count_zero', 'q_hash_count_scalars', 'q_hash_count_remove_ends', 'q_hash_count_evict_many', 'q_hash_count_rebuild', 'q_hash_count_retain'],
         k_thorough=['t_hash_count_set_max_size', 't_hash_count_mutate'],
         assumptions=[A_DOUBLE, A_HB, A_KBOUND, A_SUB, 'hash counts are checked by Kani on L1 functions and V-unreachable operations only (n <= 3); for the composite L2 operations Verus proves the number of table rebuilds per call (ghost counter table.gen(): 0 for lookups, promotions, removals, evictions, mutate, set_max_size; <= 1 for reserve/try_reserve/shrink*; exactly 1 for an insertion iff the table refused), and the hash-routing preconditions; the composite Kani count harnesses t_hash_count_insert / t_hash_count_try_insert do not terminate within memory and are not part of any tier', 'independence of the cache size is established only in that form (rebuild count per call is size-independent; per-rebuild and per-departure hashing is bounded by Kani for n <= 3)'],
         design='DESIGN.md §5 C20'),
